@@ -26,6 +26,24 @@ ASSUMPTIONS = ['the previous iterator is finished or closed before the next conn
 
 F = refws.enc_frame
 Z_EXT = {'extra': [('Sec-WebSocket-Extensions', 'permessage-deflate')]}
+Z_EXT9 = {'extra': [('Sec-WebSocket-Extensions', 'permessage-deflate; client_max_window_bits=9; server_max_window_bits=10')]}
+PROXIES = {}
+
+
+class UseProxy(object):
+    """the pair needs a proxy when either history scripts a proxy reply (same options for both runs of B)"""
+
+    def __init__(self, on):
+        self.on = on
+
+    def __enter__(self):
+        PROXIES.clear()
+        if self.on:
+            PROXIES.update({'http': 'http://proxy.local:3128', 'https': 'http://proxy.local:3128'})
+
+    def __exit__(self, *a):
+        PROXIES.clear()
+        return False
 
 
 def a_histories(z):
@@ -53,6 +71,9 @@ def a_histories(z):
                               ckw=dict(ping_rate=0, close_timeout=2.0, poll=1.0), horizon=10.0)
     for k in (1, 2, 3, 4, 6):
         A['abandon@%d' % k] = dict(steps=[('raw', F(1, b'a', fin=0) + F(9, b'p') + F(0, b'\xc3', fin=0))], abandon=k)
+    A['proxy-200-then-eof'] = dict(proxy_reply=b'HTTP/1.1 200 Connection established\r\n\r\n', steps=[('raw', F(1, b'via proxy')), ('eof',)])
+    A['proxy-503'] = dict(proxy_reply=b'HTTP/1.1 503 Service Unavailable\r\n\r\n', steps=[])
+    A['proxy-half-reply-eof'] = dict(proxy_reply=b'HTTP/1.1 200 Connection est', steps=[])
     A['graceful-control'] = dict(steps=[('raw', F(1, b't') + F(8, b'')), ('await_close',), ('eof',)])
     if z:
         peer = deflate_peer.Peer()
@@ -63,10 +84,14 @@ def a_histories(z):
             policy={'text': [['send_text', 'client context client context ' * 6], ['send_binary', b'\x00' * 500]]})
         A['z-context-abandon'] = dict(steps=[('raw', F(1, m1, rsv=4) + F(1, m2, rsv=4))],
                                       policy={'text': [['send_text', 'aaaaaaaaaaaaaaaaaaaaaaaaaaaaaa']]}, abandon=5)
+        rb = random.Random(99).randbytes(700)
+        A['z-window9-context'] = dict(hs=Z_EXT9, steps=[('raw', F(1, b'go')), ('await_frames', 2), ('eof',)],
+                                      policy={'text': [['send_binary', rb], ['send_binary', rb]]})
         A['z-garbage'] = dict(steps=[('raw', F(1, m1, rsv=4) + F(2, b'\xff\xff\xff\xff', rsv=4)), ('eof',)])
     for name, a in A.items():
         a.setdefault('hs', hs if 'hsraw' not in a else None)
-        if z and a.get('hs') is not None and 'status' not in a['hs'] and 'accept' not in a['hs'] and 'pad_to' not in a['hs']:
+        if z and a.get('hs') is not None and 'status' not in a['hs'] and 'accept' not in a['hs'] and 'pad_to' not in a['hs'] \
+                and 'extra' not in a['hs']:
             a['hs'] = dict(a['hs'], **Z_EXT)
     return A
 
@@ -84,6 +109,8 @@ def b_histories(z):
                        ckw=dict(ping_rate=1.0, ping_timeout=2.5, poll=0.5, close_timeout=1.0), horizon=12.0)
     B['close-timeout'] = dict(steps=[('raw', F(1, b't'))], policy={'poll#2': [['close']]},
                               ckw=dict(ping_rate=0, poll=0.5, close_timeout=1.5), horizon=8.0)
+    B['proxy-refused-407'] = dict(proxy_reply=b'HTTP/1.1 407 Proxy Authentication Required\r\n\r\n', steps=[])
+    B['proxy-200'] = dict(proxy_reply=b'HTTP/1.1 200 OK\r\nVia: x\r\n\r\n', steps=[('raw', F(1, b'tunnelled')), ('eof',)])
     B['send-before-ready'] = dict(steps=[('raw', F(1, b't')), ('eof',)], policy={'connected': [['send_ping', b'early']]})
     if z:
         peer = deflate_peer.Peer()
@@ -94,6 +121,9 @@ def b_histories(z):
         B['z-offered-not-negotiated'] = dict(hs={}, steps=[('raw', F(1, b'plain hello')), ('await_frames', 2), ('eof',)],
                                              policy={'text': [['send_text', 'plain reply plain reply plain reply'],
                                                               ['send_binary', b'\x00' * 300]]})
+        rb = random.Random(98).randbytes(700)
+        B['z-window9-far-repeat'] = dict(hs=Z_EXT9, steps=[('raw', F(1, b'go')), ('await_frames', 2), ('eof',)],
+                                         policy={'text': [['send_binary', rb], ['send_binary', rb]]})
         B['z-exchange'] = dict(steps=[('raw', F(1, m1, rsv=4) + F(1, m2[:7], rsv=4, fin=0) + F(0, m2[7:])), ('await_frames', 3), ('eof',)],
                                policy={'text': [['send_text', 'client context client context ' * 6]],
                                        'poll#0': [['send_binary', b'\x00' * 500]]})
@@ -127,6 +157,8 @@ def world_for(h, z, seg=None):
     else:
         first = ('hs', hs if hs is not None else ({} if not z else Z_EXT))
     steps = [first] + [st if st[0] != 'reset' else ('err', 'reset') for st in h['steps']]
+    if 'proxy_reply' in h:
+        steps = [('proxy', h['proxy_reply'])] + (steps if h['proxy_reply'].startswith(b'HTTP/1.1 200') else [('eof',)])
     return dict(steps=steps, gai=bool(h.get('gai')), horizon=h.get('horizon', 0.0), cuts=seg)
 
 
@@ -140,7 +172,10 @@ def observe_b(run, w, z):
     frames = []
     key = None
     if w.conns:
-        reqs, fr, residue, errors = H.client_frames(w.conns[0])
+        nreq = 2 if bytes(w.conns[0].tx).startswith(b'CONNECT ') else 1
+        reqs, fr, residue, errors = H.client_frames(w.conns[0], nreq)
+        if len(reqs) < nreq:
+            fr, residue, errors = [], b'', []        # the tunnel never came up: no WebSocket traffic to compare
         frames = [H.frame_sig(fr), residue, errors]
         key = refhttp.request_key(bytes(w.conns[0].tx))
     return dict(events=evs, end=run.end, frames=frames, npolls=run.names.count('poll')), key
@@ -150,7 +185,7 @@ def run_one(ws, h, z, seg=None, abandon=None):
     spec = world_for(h, z, seg)
     w = H.World(lambda _i: simnet.ScriptServer(spec['steps']), gai_error=spec['gai'], horizon=spec['horizon'],
                 stop_at=spec['horizon'] or None, cuts=spec['cuts'], budget=200000)
-    run = H.drive(w, ws=ws, ws_kwargs=dict(compress=True) if z else None, connect_kwargs=ckw_of(h),
+    run = H.drive(w, ws=ws, ws_kwargs=dict(compress=bool(z), proxies=PROXIES), connect_kwargs=ckw_of(h),
                   policy=H.TablePolicy(h.get('policy')), stop_after=abandon)
     if abandon is not None or run.end in ('quiesced', 'stopped'):
         try:
@@ -168,6 +203,16 @@ def run_case(case, acc):
     chain = case['a'] if isinstance(case['a'], list) else [case['a']]
     hb = B[case['b']]
     seg = case.get('seg')
+    needs_proxy = 'proxy_reply' in hb or any('proxy_reply' in A[a] for a in chain)
+    if needs_proxy and not all(('proxy_reply' in A[a] or A[a].get('gai')) for a in chain) or needs_proxy and 'proxy_reply' not in hb:
+        # a pair mixes proxied and direct histories: one set of options cannot serve both, not a meaningful pair
+        acc.count2('oracle', 'mixed_proxy_pairs_skipped')
+        return
+    with UseProxy(needs_proxy):
+        return _run_pair(case, acc, z, A, B, chain, hb, seg)
+
+
+def _run_pair(case, acc, z, A, B, chain, hb, seg):
     # reference: B alone on a fresh object
     ref_run, ref_w = run_one(None, hb, z, seg)
     ref_obs, ref_key = observe_b(ref_run, ref_w, z)
@@ -199,7 +244,8 @@ def run_case(case, acc):
             detail = dict(key=kb)
     if key is None and z and obs['frames']:
         # reference peer with a FRESH context must be able to inflate B's compressed client frames
-        peer = deflate_peer.Peer()
+        cb = 9 if hb.get('hs') is Z_EXT9 or hb.get('hs') == Z_EXT9 else 15
+        peer = deflate_peer.Peer(15, cb)
         for sig in obs['frames'][0]:
             if sig[2]:
                 try:
@@ -233,7 +279,7 @@ def via_persist(chain, A, hb, z, seg, acc):
             Ex.n += 1
             return Ex.n >= len(hist)
 
-    ws = env.WebSocket('ws://example.com/', compress=True) if z else env.WebSocket('ws://example.com/')
+    ws = env.WebSocket('ws://example.com/', compress=bool(z), proxies=dict(PROXIES))
     real_connect = ws.connect
     runs = []
 
